@@ -116,6 +116,10 @@ SYMS = {
     'unpivot_regex': S('unpivot', [{'name': '(s|zn)', 'keys': {'what': r'\1'}}],
                        [{'name': 'what', 'type': 'string'}], {'name': 'txt', 'type': 'string'}, resources='res_1'),
     'concat_same_name': S('concatenate', {'i': [], 'm': []}, {'name': 'cc'}),
+    # two of (by then) three resources, followed by another one: descriptor and stream positions must stay paired
+    'concat_first_two': {'op': 'flow', 'positions': [70, 71],
+                         'steps': [S('set_type', 'm', type='number', resources=None),
+                                   S('concatenate', {'i': [], 'm': [], 'txt': ['s', 's2']}, {'name': 'c12'}, resources=['res_1', 'res_2'])]},
     'concat_mapped': S('concatenate', {'i': [], 'num': ['n2', 'k']}, {'name': 'cm'}, resources='res_2'),
     'join_int': S('join', 'res_1', ['i'], 'res_2', ['i'], join_fields('m'), source_delete=False),
     'join_num': S('join', 'res_1', ['i'], 'res_2', ['i'], join_fields('n'), source_delete=True),
